@@ -23,15 +23,71 @@ import (
 // although they are equal at run time. Function objects are exempt: one per
 // contour by design.
 func c11oneobject(c *core.Ctx, r *core.Report) {
-	r.Explain("R11.oneobject: in internal/pointer (reflection modelling aside) the calls of endObject / makeTagged whose label has static type *ssa.K are grouped by K; for every K but Function all of them sit in one function.")
+	r.Explain("R11.oneobject: in internal/pointer (reflection modelling aside) the calls of endObject whose label - resolved through helper parameters to the function supplying it - has static type *ssa.K are grouped by K; for every K but Function all of them sit in one function.")
 	sites := map[string]map[string]string{} // kind -> function -> position
 	n := 0
-	for _, fn := range c.RepoFunctions() {
+	inScope := func(fn *ssa.Function) bool {
 		if c.FuncPkgRel(fn) != "internal/pointer" {
-			continue
+			return false
 		}
 		file := c.Fset.Position(fn.Pos()).Filename
-		if strings.HasSuffix(file, "_test.go") || strings.HasSuffix(file, "reflect.go") {
+		return !strings.HasSuffix(file, "_test.go") && !strings.HasSuffix(file, "reflect.go")
+	}
+	// static call sites of the functions of the package
+	callers := map[*ssa.Function][]*ssa.Call{}
+	for _, fn := range c.RepoFunctions() {
+		if !inScope(fn) {
+			continue
+		}
+		for _, b := range fn.Blocks {
+			for _, ins := range b.Instrs {
+				if call, ok := ins.(*ssa.Call); ok {
+					if sc := call.Call.StaticCallee(); sc != nil && inScope(sc) {
+						callers[sc] = append(callers[sc], call)
+					}
+				}
+			}
+		}
+	}
+	// the label resolved to the function that supplies a value of static type *ssa.K (through helper parameters)
+	var resolve func(fn *ssa.Function, v ssa.Value, at ssa.Instruction, depth int)
+	resolve = func(fn *ssa.Function, v ssa.Value, at ssa.Instruction, depth int) {
+		if mi, ok := v.(*ssa.MakeInterface); ok {
+			v = mi.X
+		}
+		isKind := false
+		if pt, ok := types.Unalias(v.Type()).(*types.Pointer); ok {
+			if nm, ok := types.Unalias(pt.Elem()).(*types.Named); ok && nm.Obj().Pkg() != nil && nm.Obj().Pkg().Path() == "golang.org/x/tools/go/ssa" {
+				isKind = true
+			}
+		}
+		if p, ok := v.(*ssa.Parameter); ok && !isKind && depth < 3 {
+			if i := core.ParamIndex(fn, p); i >= 0 {
+				for _, call := range callers[fn] {
+					if i < len(call.Call.Args) {
+						resolve(call.Parent(), call.Call.Args[i], call, depth+1)
+					}
+				}
+			}
+			return
+		}
+		pt, ok := types.Unalias(v.Type()).(*types.Pointer)
+		if !ok {
+			return
+		}
+		nm, ok := types.Unalias(pt.Elem()).(*types.Named)
+		if !ok || nm.Obj().Pkg() == nil || nm.Obj().Pkg().Path() != "golang.org/x/tools/go/ssa" {
+			return
+		}
+		n++
+		k := nm.Obj().Name()
+		if sites[k] == nil {
+			sites[k] = map[string]string{}
+		}
+		sites[k][c.FuncName(fn)] = c.Pos(at.Pos())
+	}
+	for _, fn := range c.RepoFunctions() {
+		if !inScope(fn) {
 			continue
 		}
 		for _, b := range fn.Blocks {
@@ -41,27 +97,10 @@ func c11oneobject(c *core.Ctx, r *core.Report) {
 					continue
 				}
 				sc := call.Call.StaticCallee()
-				if sc == nil || (sc.Name() != "endObject" && sc.Name() != "makeTagged") || len(call.Call.Args) != 4 {
+				if sc == nil || sc.Name() != "endObject" || len(call.Call.Args) != 4 {
 					continue
 				}
-				data := call.Call.Args[3]
-				if mi, ok := data.(*ssa.MakeInterface); ok {
-					data = mi.X
-				}
-				p, ok := types.Unalias(data.Type()).(*types.Pointer)
-				if !ok {
-					continue
-				}
-				nm, ok := types.Unalias(p.Elem()).(*types.Named)
-				if !ok || nm.Obj().Pkg() == nil || nm.Obj().Pkg().Path() != "golang.org/x/tools/go/ssa" {
-					continue
-				}
-				n++
-				k := nm.Obj().Name()
-				if sites[k] == nil {
-					sites[k] = map[string]string{}
-				}
-				sites[k][c.FuncName(fn)] = c.Pos(call.Pos())
+				resolve(fn, call.Call.Args[3], call, 0)
 			}
 		}
 	}
